@@ -23,7 +23,7 @@ WellFormed(e) ==
   /\ e.err \in ErrorKinds \cup {""}
   /\ IsNatSeq(e.a, 1073741824) /\ IsNatSeq(e.h, 1000) /\ IsNatSeq(e.r, 9)
   /\ IsNatSeq(e.b, IF e.op = "azp" THEN 65535 ELSE 255)
-  /\ (e.op = "runs" => Len(e.a) = 4)
+  /\ (e.op = "runs" => Len(e.a) \in {4, 5})
   /\ (e.op = "qrp" => Len(e.a) = 2 /\ e.a[1] \in 1..40)
   /\ (e.op = "azp" => Len(e.a) = 1 /\ e.a[1] <= 16 * Len(e.b))
   /\ (e.op = "eci" => Len(e.a) = 3 /\ e.a[1] \in 1..6 /\ e.a[3] >= 1 /\ e.a[2] + e.a[3] - 1 <= ECIFormRange(e.a[1]))
